@@ -20,16 +20,17 @@ func init() {
 			"consensus/cometbft/api NewBlock / NewBlockResults / NewBlockResultsMeta, consensus/cometbft/light Encode/DecodeValidators and DecodeLightBlock, consensus/cometbft/crypto/merkle",
 			"CometBFT types: headers, signed commits, validator sets, light blocks, results and data hashes (real objects; commits carry real ed25519 signatures and pass VerifyCommitLight)",
 			"recorded mainnet vectors of height 25300000/25300001 from stateless/testdata",
+			"batch core: stateless.Core (GetBlock, GetTransactions, GetTransactionsWithProofs, GetBlockResults, GetTransactionsWithResults, StateRoot, GetValidators, GetLightBlock, GetLatestHeight, SubmitTxWithProof; height resolution, latest-height exception, state-root and results-hash caches), the oasis light client wrapper (lazy initialisation from trust options, pruned store) and CometBFT's light client (trusted-store lookup, sequential/skipping forward verification, backward verification, witness comparison) over an in-memory store",
 		},
 		Stub: []string{
-			"light client (light blocks are handed to the verification functions as already verified)",
+			"batch bind: light client (light blocks are handed to the verification functions as already verified); batch core: the libp2p light-block provider pool is replaced by three harness providers serving the synthetic chain's really signed light blocks up to a simulator-controlled network tip (the client is constructed through the light/export_verif.go shim); WatchBlocks/Serve goroutine, queriers and verifyParameters are not run",
 			"remote provider and gRPC transport (responses are produced by the full node's converters from synthetic CometBFT blocks, then altered)",
 			"ABCI application (app hashes, results and events of the synthetic chain are arbitrary bytes chosen by the scenario)",
 		},
 		Assumptions: []string{
 			"the light block passed to a verification function has been verified by the light client for the requested height",
 			"Block.Size, per-transaction log/info/codespace/events, begin/end block events, validator proposer priorities/proposer/total power and the round of Meta.LastCommit are not committed to by the header and are tracked, not alarmed on",
-			"verifyParameters and the Core methods that need a live light client/provider (latest-height results skipping, caches) are outside the shim and not exercised",
+			"batch core: the light-block providers are honest (a Byzantine light-block provider is CometBFT's light client's business); block results of the latest trusted height cannot be bound yet (documented, #6210) and are only checked for their height",
 		},
 	})
 }
